@@ -53,6 +53,7 @@ class Ctx:
         self.drift = 0
         self.notes: list[str] = []
         self.replay_mode = False
+        self.drift_only = False     # checks beyond the listed properties report disagreement as drift, never as a violation
 
     # ------------------------------------------------------------------ bookkeeping
     @property
@@ -186,6 +187,12 @@ class Ctx:
     def violation(self, clause: str, replay: dict, key: str | None = None):
         """Report a P-level violation observed on the real code (deduplicated by key)."""
         key = key or clause
+        if self.drift_only:
+            self.drift += 1
+            ex = self.extra.setdefault("drift_examples", [])
+            if len(ex) < 8:
+                ex.append({"clause": clause, "case": {k: v for k, v in replay.items() if k != "text"}})
+            return
         for k in self.known:
             if k.get("status") == "known" and _match_known(k, clause, replay):
                 msg = f"KNOWN-FINDING: property={self.prop} {k.get('what', '')}"
